@@ -203,6 +203,8 @@ class SMUserList(UserList, ABC):
             elif type(arg[0]) == type(self):
                 # possibly a list of objects of same type
                 assert all(map(lambda x: type(x) == type(self), arg)), 'elements of list are incorrect type'
+                if not all(len(x) == 1 for x in arg):
+                    raise ValueError('elements of list must be singleton instances, each holding exactly one value')
                 self.data = [x.A for x in arg]
 
             elif argcheck.isnumberlist(arg) and len(self.shape) == 1 and len(arg) == self.shape[0]:
